@@ -65,6 +65,9 @@ ASSUMPTIONS = [
     "the rotation of the square loop about its normal is not prescribed; the "
     "support oracle of a magnetic dipole uses the loop corners returned by "
     "emg3d after they passed the independent loop-geometry check",
+    "the distribution of the weights inside the touched cells is not part of "
+    "the property and is not judged (only sums and support); a wrong "
+    "distribution hidden by the run-time re-normalisation stays invisible",
     "sampled, not exhaustive, except the lattice dipoles of one small grid",
 ]
 
@@ -85,9 +88,9 @@ def plan(tier, seed):
         nconv, cper = 2, 6000        # 12 000 conversion cases
         nenum = 3
     else:
-        nsrc, per = 60, 4000         # 240 000 sources
-        nconv, cper = 10, 20000      # 200 000 conversion cases
-        nenum = 15
+        nsrc, per = 40, 4000         # 160 000 sources (~25 CPU-minutes)
+        nconv, cper = 6, 20000       # 120 000 conversion cases
+        nenum = 12                   # 59 780 lattice dipoles
     for k in range(nsrc):
         out.append({'id': f'src{k}', 'mode': 'src', 'k': k, 'n': per})
     for k in range(nconv):
@@ -126,6 +129,8 @@ def ref_nodes(gs):
 def touched_cells(nodes, segments, infl=INFL):
     """Cells whose closed, inflated box is hit by one of the segments."""
     shape = tuple(len(n)-1 for n in nodes)
+    # my nodes (origin + cumsum) and the mesh's may differ by a few ulp
+    infl = infl + 64*EPS*max(float(np.abs(n).max()) for n in nodes)
     T = np.zeros(shape, bool)
     for p0, p1 in segments:
         lows, highs = [], []
@@ -190,6 +195,7 @@ def point_allowed(nodes, xyz, infl=1e-9):
             lo[1] = -np.inf
             hi[n-2] = np.inf
         return (c >= lo) & (c <= hi)
+    infl = infl + 64*EPS*max(float(np.abs(n).max()) for n in nodes)
     cc = [(n[:-1] + n[1:])/2 for n in nodes]
     out = []
     for d in range(3):
@@ -203,19 +209,26 @@ def in_upper_plane(points, nodes):
     """Does a segment lie entirely in the last node plane of a direction?"""
     pts = np.round(np.asarray(points, float), 9)
     for d in range(3):
-        last = round(float(nodes[d][-1]), 9)
+        # np.round for both (Python's round() is correctly rounded, np.round
+        # scales and uses rint: the two can differ in the last bit)
+        last = np.round(np.asarray(nodes[d], float), 9)[-1]
         on = pts[:, d] == last
         if np.any(on[:-1] & on[1:]):
             return True
     return False
 
 
-def loop_geometry(pts, centre, direction, area):
-    """List of (what, value, tolerance) for the square-loop clause."""
+def loop_geometry(pts, centre, direction, area, scale_in=0.0):
+    """List of (what, value, tolerance) for the square-loop clause.
+
+    ``scale_in``: largest coordinate handed to emg3d (two electrodes `area`
+    apart can lie far away from the loop; their rounding limits the accuracy
+    of the centre / direction / length emg3d can recover from them).
+    """
     pts = np.asarray(pts, float)
     centre = np.asarray(centre, float)
     side = math.sqrt(area)
-    scale = float(np.abs(centre).max()) + side
+    scale = max(float(np.abs(centre).max()), float(scale_in)) + side
     tl = 256*EPS*scale                     # a length / coordinate
     ta = 256*EPS*scale*side + 256*EPS*area  # an area / product of two sides
     res = []
@@ -388,8 +401,13 @@ def gen_src_case(r, nodes, tier):
         # emg3d rejects electrodes (here: loop corners) that are np.allclose
         # (rtol 1e-5 of the coordinate); stay clear of that rejection.
         maxabs = max(max(abs(n[0]), abs(n[-1])) for n in nodes)
-        hd = max(room*r.uniform(0.05, 0.98),
-                 min(0.9*room, 1e-4*(maxabs + 1.0)))
+        need = 1e-4*(maxabs + 1.0)
+        hd = max(room*r.uniform(0.05, 0.98), min(0.9*room, need))
+        if hd < need:
+            # too small a loop for the two-electrode formats: centre format
+            c['fmt'] = 'point5'
+            if 'raw' in c:
+                c['raw'] = 'tuple5-magnetic'
         area = 2*hd*hd
         az = pick_angle(r, SPECIAL_AZ, -180, 180)
         el = pick_angle(r, SPECIAL_EL, -90, 90)
@@ -505,10 +523,14 @@ def unit_twin(c):
     return t
 
 
-def check_source(rec, grid, gs, c, case, full=True):
+def check_source(rec, grid, gs, c, case):
     """Run one source through get_source_field and judge it."""
     from scipy.constants import mu_0
     nodes = ref_nodes(gs)
+    # classification of the input (not the oracle): the mesh's own nodes, the
+    # values the generator snapped electrodes to
+    gnodes = [np.array(grid.nodes_x), np.array(grid.nodes_y),
+              np.array(grid.nodes_z)]
     st = c['strength']
     f = c['frequency']
     cplx = isinstance(st, complex)
@@ -560,7 +582,10 @@ def check_source(rec, grid, gs, c, case, full=True):
                 o = emg3d.TxMagneticDipole(np.array(c['coords']))
             loop_pts = np.array(o.points, dtype=float)
         geo = loop_geometry(loop_pts, c['centre'],
-                            ref_rotation(c['az'], c['el']), c['length'])
+                            ref_rotation(c['az'], c['el']), c['length'],
+                            float(np.abs(np.array(c['coords']).ravel()[:3]
+                                         if c['fmt'] == 'point5' else
+                                         np.array(c['coords'])).max()))
         rec.event('loop_checks')
         bad = [(w_, v, t) for (w_, v, t) in geo if not (v <= t)]
         for w_, v, t in geo:
@@ -585,13 +610,16 @@ def check_source(rec, grid, gs, c, case, full=True):
 
     # ---- finite
     rec.event('finite_checks')
+    upper = segs is not None and in_upper_plane(pts, gnodes)
+    if upper:
+        rec.extra_add('sources_with_segment_in_upper_boundary_plane')
     arrays = [a for a in ((vec or []) + (field or []))]
     if cplx:
         arrays += unit
     if not all(np.all(np.isfinite(a)) for a in arrays):
         nnan = int(sum(np.count_nonzero(~np.isfinite(a)) for a in arrays))
         ntot = int(sum(a.size for a in arrays))
-        if segs is not None and in_upper_plane(pts, nodes):
+        if upper:
             rec.extra_add('upper_plane_nonfinite')
             rec.violation(K_UPPER, 'a wire segment lying in the last node '
                           'plane of a direction (accepted as inside the grid) '
@@ -713,7 +741,6 @@ def run_src(rec, batch):
                         'frequency': c['frequency'],
                         'sums': case.get('sums')})
     # complex strength in a real-valued call: outcome recorded, not judged
-    r = gen.rng(seed, 'C10', k, 'cplx')
     if grid is not None and only is None:
         for f in (None, -1.0):
             try:
@@ -724,7 +751,6 @@ def run_src(rec, batch):
                 rec.extra_add('complex_strength_real_call_returned')
             except Exception:  # noqa
                 rec.extra_add('complex_strength_real_call_raised')
-    _ = r
 
 
 # --------------------------------------------------------------------------
@@ -943,7 +969,7 @@ def run_conv(rec, batch):
                 for name, mk in fmts.items():
                     o = mk(emg3d.TxMagneticDipole)
                     geo = loop_geometry(np.asarray(o.points, float), centre,
-                                        d, L)
+                                        d, L, scale)
                     rec.event('loop_checks')
                     badg = [(w_, v, t) for (w_, v, t) in geo if not (v <= t)]
                     for w_, v, t in geo:
